@@ -601,10 +601,14 @@ pub fn config(i: usize) -> (&'static str, Params) {
             p.prefer_pure_change = true;
             "byron-change-address,prefer_pure_change"
         }
-        _ => {
+        7 => {
             p.change_kind = 1;
             p.max_value_size = 70;
             "byron-change-address,max_value_size=70"
+        }
+        _ => {
+            p.legacy_api = true;
+            "older-entry-points"
         }
     };
     (name, p)
@@ -639,19 +643,57 @@ pub struct Finish {
 /// Build a TransactionBuilder for state `st` under `params` (no balancing yet).
 pub fn setup(w: &World, st: &St, params: &Params) -> Result<TransactionBuilder, String> {
     let mut tb = TransactionBuilder::new(&params.config());
-    tb.set_inputs(&st.ib);
+    // legacy mode: every component that the older entry points can express goes through them
+    let legacy = params.legacy_api;
+    let simple_inputs = st.m.inputs.iter().all(|(i, v)| *v == 0 && !matches!(w.utxos[*i].0.owner, Owner::Plutus(_)));
+    if legacy && simple_inputs {
+        for (i, _) in &st.m.inputs {
+            let (spec, u) = &w.utxos[*i];
+            let (inp, val) = (u.input(), u.output().amount());
+            match &spec.owner {
+                Owner::Key(k) => {
+                    // alternate between the two key-input entry points
+                    if i % 2 == 0 {
+                        tb.add_key_input(&kh(*k), &inp, &val)
+                    } else {
+                        tb.add_regular_input(&u.output().address(), &inp, &val).map_err(|e| format!("add_regular_input: {:?}", e))?
+                    }
+                }
+                Owner::Byron(b) => tb.add_bootstrap_input(&crate::gen::byron_cached(*b as usize), &inp, &val),
+                Owner::Native(n) => tb.add_native_script_input(&w.native[*n], &inp, &val),
+                Owner::Plutus(_) => unreachable!(),
+            }
+        }
+    } else {
+        tb.set_inputs(&st.ib);
+    }
     tb.set_collateral(&st.cb);
     for j in &st.m.outputs {
         tb.add_output(&w.outputs[*j]).map_err(|e| format!("add_output#{}: {:?}", j, e))?;
     }
     if !st.m.certs.is_empty() {
-        tb.set_certs_builder(&st.certs);
+        if legacy && st.m.certs.iter().all(|k| w.certs[*k].script.is_none()) {
+            tb.set_certs(&st.certs.build()).map_err(|e| format!("set_certs: {:?}", e))?;
+        } else {
+            tb.set_certs_builder(&st.certs);
+        }
     }
     if !st.m.wds.is_empty() {
-        tb.set_withdrawals_builder(&st.wds);
+        if legacy && st.m.wds.iter().all(|i| matches!(i, 0 | 2 | 4)) {
+            tb.set_withdrawals(&st.wds.build()).map_err(|e| format!("set_withdrawals: {:?}", e))?;
+        } else {
+            tb.set_withdrawals_builder(&st.wds);
+        }
     }
     if !st.m.mint.is_empty() {
-        tb.set_mint_builder(&st.mint);
+        if legacy && st.m.mint.keys().all(|k| k.0 == 0) {
+            let mut ns = NativeScripts::new();
+            ns.add(&w.native[0]);
+            let mint = st.mint.build().map_err(|e| format!("mint build: {:?}", e))?;
+            tb.set_mint(&mint, &ns).map_err(|e| format!("set_mint: {:?}", e))?;
+        } else {
+            tb.set_mint_builder(&st.mint);
+        }
     }
     if !st.m.votes.is_empty() {
         tb.set_voting_builder(&st.votes);
@@ -944,12 +986,12 @@ pub fn configs_for(prop: &str, tier: Tier) -> Vec<usize> {
     match prop {
         "C05" | "C06" | "C07" | "C03" => {
             if tier.thorough() {
-                vec![0, 1, 2, 3, 4, 5, 6, 7]
+                vec![0, 1, 2, 3, 4, 5, 6, 7, 8]
             } else {
-                vec![0, 1, 2, 3, 5, 6]
+                vec![0, 1, 2, 3, 5, 6, 8]
             }
         }
-        "C18" | "C16" => vec![0, 5],
+        "C18" | "C16" => vec![0, 5, 8],
         _ => vec![0],
     }
 }
